@@ -101,10 +101,11 @@ where
         y: b1.y - a1.y,
     };
     let mut kross = cross_product(va, vb);
-    let mut sqr_kross = kross * kross;
     let sqr_len_a = dot_product(va, va);
 
-    if sqr_kross > F::zero() {
+    // Test the cross product itself: its square underflows to zero for small coordinates
+    // (below about 1e-11 in f32), which made crossing segments look parallel.
+    if kross.abs() > F::zero() {
         let s = cross_product(e, vb) / kross;
         if s < F::zero() || s > F::one() {
             return LineIntersection::None;
@@ -125,9 +126,8 @@ where
     }
 
     kross = cross_product(e, va);
-    sqr_kross = kross * kross;
 
-    if sqr_kross > F::zero() {
+    if kross.abs() > F::zero() {
         return LineIntersection::None;
     }
 
